@@ -215,7 +215,7 @@ func condOf(i *ssa.If) *Expr {
 // reach explores fn's CFG from the start points without crossing barriers.
 // stopAt (optional) instructions are visited but not passed.
 func reach(starts []Point, bars []Barrier, stopAt func(ssa.Instruction) bool) *reachResult {
-	return reachH(starts, bars, stopAt, &helperCtx{always: map[*ssa.Function]int{}, implies: map[helperKey]int{}})
+	return reachH(starts, bars, stopAt, &helperCtx{always: map[helperKey]int{}, implies: map[helperKey]int{}, act: map[*ssa.Function][]*Expr{}})
 }
 
 // ---------------------------------------------------------------------------
@@ -233,13 +233,87 @@ func reach(starts []Point, bars []Barrier, stopAt func(ssa.Instruction) bool) *r
 type helperKey struct {
 	fn   *ssa.Function
 	idx  int
-	want bool // truthy (true / non-nil) or falsy
+	want bool   // truthy (true / non-nil) or falsy
+	sig  string // the activation's arguments
 }
 
 type helperCtx struct {
-	always  map[*ssa.Function]int // 0 unknown, 1 yes, 2 no, 3 in progress
+	always  map[helperKey]int // 0 unknown, 1 yes, 2 no, 3 in progress
 	implies map[helperKey]int
 	depth   int
+	// act: the arguments (described in the ORIGINAL caller's terms) of the helper
+	// activations being summarised; conditions met inside a helper body are
+	// matched against barriers with the helper's parameters replaced by them,
+	// so a guard spelled on the caller's values (f.Sync() on the temp file, the
+	// same response, the inserted key) is recognised inside the helper
+	act map[*ssa.Function][]*Expr
+}
+
+// inHelper rewrites a condition met in function f's body into the caller's terms.
+func (hc *helperCtx) inHelper(f *ssa.Function, e *Expr) *Expr {
+	if hc == nil || hc.act == nil || e == nil {
+		return e
+	}
+	top := TopLevel(f)
+	if o := top.Origin(); o != nil {
+		top = o
+	}
+	args, ok := hc.act[top]
+	if !ok {
+		return e
+	}
+	return substParams(e, args, map[*Expr]*Expr{}, 0)
+}
+
+// callArgsIn describes a call's arguments in the original caller's terms.
+func (hc *helperCtx) callArgsIn(cc *ssa.CallCommon, caller *ssa.Function) []*Expr {
+	out := make([]*Expr, len(cc.Args))
+	for i, a := range cc.Args {
+		out[i] = hc.inHelper(caller, Desc(a))
+	}
+	return out
+}
+
+func argSig(args []*Expr) string {
+	var sb strings.Builder
+	for _, a := range args {
+		if a != nil {
+			sb.WriteString(a.String())
+		}
+		sb.WriteByte(';')
+	}
+	return sb.String()
+}
+
+// substParams: copy of e with every parameter node replaced by the matching argument.
+func substParams(e *Expr, args []*Expr, memo map[*Expr]*Expr, d int) *Expr {
+	if e == nil || d > 40 {
+		return e
+	}
+	if r, ok := memo[e]; ok {
+		return r
+	}
+	if e.K == EParam {
+		if e.Idx >= 0 && e.Idx < len(args) && args[e.Idx] != nil {
+			memo[e] = args[e.Idx]
+			return args[e.Idx]
+		}
+		return e
+	}
+	if e.X == nil && e.Y == nil && len(e.Args) == 0 {
+		return e
+	}
+	cp := *e
+	memo[e] = &cp
+	cp.X = substParams(e.X, args, memo, d+1)
+	cp.Y = substParams(e.Y, args, memo, d+1)
+	if len(e.Args) > 0 {
+		cp.Args = make([]*Expr, len(e.Args))
+		for i, a := range e.Args {
+			cp.Args[i] = substParams(a, args, memo, d+1)
+		}
+	}
+	return &cp
 }
 
 // localHelper returns the callee when it is an unexported, non-recursive,
@@ -275,8 +349,9 @@ func localHelper(caller *ssa.Function, cc *ssa.CallCommon) *ssa.Function {
 	return h
 }
 
-func (hc *helperCtx) alwaysCrosses(h *ssa.Function, bars []Barrier) bool {
-	switch hc.always[h] {
+func (hc *helperCtx) alwaysCrosses(h *ssa.Function, bars []Barrier, args []*Expr) bool {
+	k := helperKey{fn: h, sig: argSig(args)}
+	switch hc.always[k] {
 	case 1:
 		return true
 	case 2, 3:
@@ -285,9 +360,14 @@ func (hc *helperCtx) alwaysCrosses(h *ssa.Function, bars []Barrier) bool {
 	if hc.depth >= 3 {
 		return false
 	}
-	hc.always[h] = 3
+	if _, busy := hc.act[h]; busy {
+		return false
+	}
+	hc.always[k] = 3
 	hc.depth++
+	hc.act[h] = args
 	r := reachH(entryPoint(h), bars, nil, hc)
+	delete(hc.act, h)
 	hc.depth--
 	ok := true
 	for _, in := range r.order {
@@ -297,17 +377,17 @@ func (hc *helperCtx) alwaysCrosses(h *ssa.Function, bars []Barrier) bool {
 		}
 	}
 	if ok {
-		hc.always[h] = 1
+		hc.always[k] = 1
 	} else {
-		hc.always[h] = 2
+		hc.always[k] = 2
 	}
 	return ok
 }
 
 // resultImplies: every return of h whose result #idx may have truthiness
 // `want` is unreachable from h's entry without crossing bars.
-func (hc *helperCtx) resultImplies(h *ssa.Function, idx int, want bool, bars []Barrier) bool {
-	k := helperKey{h, idx, want}
+func (hc *helperCtx) resultImplies(h *ssa.Function, idx int, want bool, bars []Barrier, args []*Expr) bool {
+	k := helperKey{h, idx, want, argSig(args)}
 	switch hc.implies[k] {
 	case 1:
 		return true
@@ -317,9 +397,13 @@ func (hc *helperCtx) resultImplies(h *ssa.Function, idx int, want bool, bars []B
 	if hc.depth >= 3 {
 		return false
 	}
+	if _, busy := hc.act[h]; busy {
+		return false
+	}
 	hc.implies[k] = 3
 	hc.depth++
-	defer func() { hc.depth-- }()
+	hc.act[h] = args
+	defer func() { hc.depth--; delete(hc.act, h) }()
 	base := reachH(entryPoint(h), bars, nil, hc)
 	ok := true
 	nret := 0
@@ -329,46 +413,7 @@ func (hc *helperCtx) resultImplies(h *ssa.Function, idx int, want bool, bars []B
 			continue
 		}
 		nret++
-		v := Desc(ret.Results[idx])
-		if sv := strip(v); sv != nil && sv.K == EConst {
-			truthy := !sv.IsNil
-			if sv.Val != nil && sv.Val.Kind() == constant.Bool {
-				truthy = constant.BoolVal(sv.Val)
-			}
-			if truthy == want {
-				ok = false // a return yielding exactly this value is reachable unguarded
-				break
-			}
-			continue
-		}
-		// returning the guard atom itself: "return check(x)" yields true only
-		// when check(x) is true — an implicit branch on the returned value
-		implied := false
-		for _, b := range bars {
-			if b.Edge == nil {
-				continue
-			}
-			if m, succ := b.Edge(v); m && ((want && succ == 0) || (!want && succ == 1)) {
-				implied = true
-				break
-			}
-		}
-		if implied {
-			continue
-		}
-		// non-constant result: it may have the wanted truthiness unless every
-		// bars-avoiding path to this return crosses the edge that fixes the
-		// value to the opposite truthiness (return err behind err != nil)
-		vs := v.String()
-		same := func(e *Expr) bool { return e != nil && e.String() == vs }
-		var fix Barrier
-		if want {
-			fix = OnFalse("result falsy", same) // crossing "value is falsy" means it cannot be truthy here
-		} else {
-			fix = OnTrue("result truthy", same)
-		}
-		r2 := reachH(entryPoint(h), append(append([]Barrier{}, bars...), fix), nil, hc)
-		if r2.visited[in] {
+		if hc.mayYield(h, ret.Results[idx], in, want, bars, base, 0) {
 			ok = false
 			break
 		}
@@ -385,14 +430,71 @@ func (hc *helperCtx) resultImplies(h *ssa.Function, idx int, want bool, bars []B
 	return ok
 }
 
+// mayYield: can value v, observed when control reaches `at`, have truthiness
+// `want` on a path from h's entry that avoids bars?  Short-circuit results
+// (return a || b || c) are phis: each operand is judged at the end of the block
+// it flows in from, so `false` can only come from the operands that may be
+// false, on the paths that lead to them.
+func (hc *helperCtx) mayYield(h *ssa.Function, v ssa.Value, at ssa.Instruction, want bool, bars []Barrier, base *reachResult, depth int) bool {
+	if !base.visited[at] {
+		return false
+	}
+	d := hc.inHelper(h, Desc(v))
+	if sv := strip(d); sv != nil && sv.K == EConst {
+		truthy := !sv.IsNil
+		if sv.Val != nil && sv.Val.Kind() == constant.Bool {
+			truthy = constant.BoolVal(sv.Val)
+		}
+		return truthy == want
+	}
+	if ph, ok := v.(*ssa.Phi); ok && depth < 4 && len(ph.Edges) == len(ph.Block().Preds) {
+		for i, e := range ph.Edges {
+			pred := ph.Block().Preds[i]
+			if len(pred.Instrs) == 0 {
+				return true
+			}
+			if hc.mayYield(h, e, pred.Instrs[len(pred.Instrs)-1], want, bars, base, depth+1) {
+				return true
+			}
+		}
+		return false
+	}
+	if un, ok := v.(*ssa.UnOp); ok && un.Op == token.NOT && depth < 4 {
+		return hc.mayYield(h, un.X, at, !want, bars, base, depth+1)
+	}
+	// returning the guard atom itself: "return check(x)" yields true only
+	// when check(x) is true — an implicit branch on the returned value
+	for _, b := range bars {
+		if b.Edge == nil {
+			continue
+		}
+		if m, succ := b.Edge(d); m && ((want && succ == 0) || (!want && succ == 1)) {
+			return false
+		}
+	}
+	// non-constant result: it may have the wanted truthiness unless every
+	// bars-avoiding path to this point crosses the edge that fixes the value
+	// to the opposite truthiness (return err behind err != nil)
+	vs := d.String()
+	same := func(e *Expr) bool { return e != nil && e.String() == vs }
+	var fix Barrier
+	if want {
+		fix = OnFalse("result falsy", same) // crossing "value is falsy" means it cannot be truthy here
+	} else {
+		fix = OnTrue("result truthy", same)
+	}
+	r2 := reachH(entryPoint(h), append(append([]Barrier{}, bars...), fix), nil, hc)
+	return r2.visited[at]
+}
+
 // helperResultEdge: cond (already described) tests the result of a local
 // helper; returns the helper, the result index, and which successor is taken
 // when the result is truthy.
-func helperResultEdge(caller *ssa.Function, cond *Expr) (*ssa.Function, int, int, bool) {
+func helperResultEdge(caller *ssa.Function, cond *Expr) (*ssa.Function, int, int, *ssa.Call, bool) {
 	a, pol := Truthy(cond)
 	a = strip(a)
 	if a == nil {
-		return nil, 0, 0, false
+		return nil, 0, 0, nil, false
 	}
 	idx := 0
 	call := a
@@ -401,21 +503,21 @@ func helperResultEdge(caller *ssa.Function, cond *Expr) (*ssa.Function, int, int
 		call = strip(a.X)
 	}
 	if call == nil || call.K != ECall {
-		return nil, 0, 0, false
+		return nil, 0, 0, nil, false
 	}
 	cl, ok := call.V.(*ssa.Call)
 	if !ok {
-		return nil, 0, 0, false
+		return nil, 0, 0, nil, false
 	}
 	h := localHelper(caller, &cl.Call)
 	if h == nil {
-		return nil, 0, 0, false
+		return nil, 0, 0, nil, false
 	}
 	truthySucc := 0
 	if !pol {
 		truthySucc = 1
 	}
-	return h, idx, truthySucc, true
+	return h, idx, truthySucc, cl, true
 }
 
 func reachH(starts []Point, bars []Barrier, stopAt func(ssa.Instruction) bool, hc *helperCtx) *reachResult {
@@ -469,7 +571,7 @@ func reachH(starts []Point, bars []Barrier, stopAt func(ssa.Instruction) bool, h
 			}
 			if !crossed && len(bars) > 0 {
 				if cl, ok := in.(*ssa.Call); ok {
-					if h := localHelper(in.Parent(), &cl.Call); h != nil && hc.alwaysCrosses(h, bars) {
+					if h := localHelper(in.Parent(), &cl.Call); h != nil && hc.alwaysCrosses(h, bars, hc.callArgsIn(&cl.Call, in.Parent())) {
 						crossed = true
 					}
 				}
@@ -482,14 +584,16 @@ func reachH(starts []Point, bars []Barrier, stopAt func(ssa.Instruction) bool, h
 				// terminator
 				switch t := in.(type) {
 				case *ssa.If:
-					cond := condOf(t)
+					rawCond := condOf(t)
+					cond := hc.inHelper(in.Parent(), rawCond)
 					var condAlt *Expr // the phi as a whole (identity patterns) next to its path-resolved operand
 					// when the incoming edge is known and the condition is (a negation
 					// of) a phi of this block, match barriers against the operand that
 					// actually flows in on this path
 					if pred >= 0 {
 						if ph := condPhi(t); ph != nil && pred < len(ph.Edges) {
-							e := Desc(ph.Edges[pred])
+							rawCond = Desc(ph.Edges[pred])
+							e := hc.inHelper(in.Parent(), rawCond)
 							v := t.Cond
 							for {
 								u, ok := v.(*ssa.UnOp)
@@ -536,8 +640,8 @@ func reachH(starts []Point, bars []Barrier, stopAt func(ssa.Instruction) bool, h
 							}
 						}
 						if !blocked && len(bars) > 0 {
-							if h, idx, truthySucc, ok := helperResultEdge(in.Parent(), cond); ok {
-								if hc.resultImplies(h, idx, k == truthySucc, bars) {
+							if h, idx, truthySucc, hcl, ok := helperResultEdge(in.Parent(), rawCond); ok {
+								if hc.resultImplies(h, idx, k == truthySucc, bars, hc.callArgsIn(&hcl.Call, in.Parent())) {
 									blocked = true
 								}
 							}
@@ -736,6 +840,15 @@ func (c *Ctx) unguarded(target ssa.Instruction, bars []Barrier, top *ssa.Functio
 				return true, tr
 			}
 			for _, s := range sites {
+				// with the helper's parameters read as this call's arguments the guard
+				// may be crossed inside the helper itself
+				if cl, ok := s.(*ssa.Call); ok {
+					hc := &helperCtx{always: map[helperKey]int{}, implies: map[helperKey]int{}, act: map[*ssa.Function][]*Expr{}}
+					hc.act[fn] = hc.callArgsIn(&cl.Call, s.Parent())
+					if r2 := reachH(entryPoint(fn), bars, nil, hc); !r2.visited[target] {
+						continue
+					}
+				}
 				if ug, t2 := c.unguarded(s, bars, top); ug {
 					return true, t2 + "⇒helper:" + tr
 				}
@@ -1068,6 +1181,14 @@ func (c *Ctx) AfterEdge(rule string, fn *ssa.Function, what string, edge Barrier
 		return 0
 	}
 	pts := edgePoints(fn, edge)
+	if len(pts) == 0 {
+		// the branch was moved wholesale into an unexported helper of fn
+		for _, g := range scopeFuncs(fn) {
+			if TopLevel(g) != TopLevel(fn) {
+				pts = append(pts, edgePoints(g, edge)...)
+			}
+		}
+	}
 	var bn []string
 	for _, b := range bars {
 		bn = append(bn, b.Name)
@@ -1078,13 +1199,45 @@ func (c *Ctx) AfterEdge(rule string, fn *ssa.Function, what string, edge Barrier
 		return 0
 	}
 	for _, pt := range pts {
+		inHelper := TopLevel(pt.B.Parent()) != TopLevel(fn)
 		r := reach([]Point{pt}, bars, nil)
 		bad := false
+		report := func(r *reachResult, t, hit ssa.Instruction) {
+			bad = true
+			c.violation(rule, key, instrPos(hit), fmt.Sprintf("%s: after edge %s (block at %s) reaches %s without crossing {%s}; path %s", what, edge.Name, c.P.pos(instrPos(pt.B.Instrs[0])), c.P.pos(instrPos(hit)), strings.Join(bn, " | "), c.trail(r, t)))
+		}
+		var resume []Point
 		for _, t := range r.order {
+			if _, isRet := t.(*ssa.Return); isRet && inHelper {
+				// the helper returns with the barriers uncrossed: the path goes on after
+				// each of its call sites in fn
+				h := TopLevel(pt.B.Parent())
+				for _, g := range scopeFuncs(fn) {
+					if TopLevel(g) == h {
+						continue
+					}
+					for _, b := range g.Blocks {
+						for _, in := range b.Instrs {
+							if cl, ok := in.(*ssa.Call); ok && localHelper(g, &cl.Call) == h {
+								resume = append(resume, pointAfter(in))
+							}
+						}
+					}
+				}
+				continue
+			}
 			if hit, ok := hitIn(t, target, bars); ok {
-				bad = true
-				c.violation(rule, key, instrPos(hit), fmt.Sprintf("%s: after edge %s (block at %s) reaches %s without crossing {%s}; path %s", what, edge.Name, c.P.pos(instrPos(pt.B.Instrs[0])), c.P.pos(instrPos(hit)), strings.Join(bn, " | "), c.trail(r, t)))
+				report(r, t, hit)
 				break
+			}
+		}
+		if !bad && len(resume) > 0 {
+			r2 := reach(resume, bars, nil)
+			for _, t := range r2.order {
+				if hit, ok := hitIn(t, target, bars); ok {
+					report(r2, t, hit)
+					break
+				}
 			}
 		}
 		if !bad {
@@ -1217,6 +1370,66 @@ func evalBoolOnPath(v ssa.Value, path []*ssa.BasicBlock, atoms []CmpAtom, row in
 			}
 		}
 		return false, "phi operand cannot be resolved on the walked path"
+	case *ssa.Call:
+		// a pure predicate extracted into an unexported same-package helper: evaluate its
+		// branch structure under the same assignment, with the atoms' operand patterns
+		// carried over to the helper's parameters through the call's arguments
+		if h := localHelper(x.Parent(), &x.Call); h != nil && len(h.Blocks) > 0 && h.Signature.Results().Len() == 1 {
+			args := x.Call.Args
+			via := func(p Pat) Pat {
+				return func(e *Expr) bool {
+					s := strip(e)
+					if s != nil && s.K == EParam && s.Idx >= 0 && s.Idx < len(args) {
+						return p(Desc(args[s.Idx]))
+					}
+					return false
+				}
+			}
+			sub := make([]CmpAtom, len(atoms))
+			for i, a := range atoms {
+				sub[i] = CmpAtom{Name: a.Name, Op: a.Op, Lhs: via(a.Lhs), Rhs: via(a.Rhs)}
+			}
+			pt := Point{h.Blocks[0], 0}
+			hpath := []*ssa.BasicBlock{pt.B}
+			for steps := 0; steps < 10000; steps++ {
+				if pt.I >= len(pt.B.Instrs) {
+					return false, "fell off a block in helper " + h.Name()
+				}
+				in := pt.B.Instrs[pt.I]
+				if pt.I < len(pt.B.Instrs)-1 {
+					switch in.(type) {
+					case *ssa.Store, *ssa.Go, *ssa.Defer, *ssa.Send, *ssa.MapUpdate, *ssa.Panic:
+						return false, "helper " + h.Name() + " is not a pure predicate"
+					}
+					pt.I++
+					continue
+				}
+				switch t := in.(type) {
+				case *ssa.Jump:
+					pt = Point{pt.B.Succs[0], 0}
+					hpath = append(hpath, pt.B)
+				case *ssa.If:
+					val, why := evalBoolOnPath(t.Cond, hpath, sub, row, depth+1)
+					if why != "" {
+						return false, why
+					}
+					if val {
+						pt = Point{pt.B.Succs[0], 0}
+					} else {
+						pt = Point{pt.B.Succs[1], 0}
+					}
+					hpath = append(hpath, pt.B)
+				case *ssa.Return:
+					if len(t.Results) != 1 {
+						return false, "helper " + h.Name() + " result shape"
+					}
+					return evalBoolOnPath(t.Results[0], hpath, sub, row, depth+1)
+				default:
+					return false, "helper " + h.Name() + " leaves the predicate shape"
+				}
+			}
+			return false, "helper " + h.Name() + " walk did not terminate"
+		}
 	case *ssa.BinOp:
 		e := Desc(x)
 		for ai, a := range atoms {
@@ -1303,4 +1516,36 @@ func hitIn(t ssa.Instruction, target func(ssa.Instruction) bool, bars []Barrier)
 		}
 	}
 	return nil, false
+}
+
+// helperActivations: the argument lists (described in the caller's terms) of every
+// direct call to helper h from top's scope.
+func helperActivations(top, h *ssa.Function) [][]*Expr {
+	var out [][]*Expr
+	for _, g := range scopeFuncs(top) {
+		if TopLevel(g) == h {
+			continue
+		}
+		for _, b := range g.Blocks {
+			for _, in := range b.Instrs {
+				if cl, ok := in.(*ssa.Call); ok && localHelper(g, &cl.Call) == h {
+					args := make([]*Expr, len(cl.Call.Args))
+					for i, a := range cl.Call.Args {
+						args[i] = Desc(a)
+					}
+					out = append(out, args)
+				}
+			}
+		}
+	}
+	return out
+}
+
+// inActivation rewrites e (an expression of helper code) with the helper's
+// parameters replaced by args; args == nil leaves e unchanged.
+func inActivation(e *Expr, args []*Expr) *Expr {
+	if args == nil {
+		return e
+	}
+	return substParams(e, args, map[*Expr]*Expr{}, 0)
 }
